@@ -89,12 +89,24 @@ def inventory(an, rep):
                        "transmutes and raw-pointer derefs from MIR; unsafe impls and unsafe fns) are a subset of the frozen "
                        "inventory")
     core = an.core()
+    from .. import callgraph
+    from .n_totality import _owner_fn
+    owner, users = _owner_fn(core, callgraph.CallGraph(core))
     nblocks = nops = 0
     for b in sorted(core.bodies.values(), key=lambda b: b.key):
         user_blocks = [u for u in b.unsafe_blocks if u["user"]]
         ops = [o for o in _unsafe_ops(b) if not (o[4].get("exp") and not _local_file(o[4]))]
+        if not user_blocks and not ops and not b.unsafe_fn:
+            continue
         fk = b.key.split("::{closure")[0]
         allowed = UNSAFE_SITES.get(fk)
+        if allowed is None:
+            # a private helper is accounted to the function(s) that use it: all of them must have the entry
+            root = core.bodies.get(b.raw.get("root")) if b.kind == "Closure" else b
+            us = users(root or b)
+            ents = [UNSAFE_SITES.get(u) for u in us]
+            if us and all(e is not None for e in ents):
+                allowed = (set.intersection(*[set(e[0]) for e in ents]), "private helper of %s: %s" % (sorted(us), ents[0][1]))
         if b.unsafe_fn:
             R.fail(b.key, "unsafe fn", "unsafe fn is not in the frozen inventory", mir.loc(b, 0))
         for u in user_blocks:
@@ -146,49 +158,90 @@ def _guard_equations(body, ex, facts, bb):
     return eqs
 
 
+def _path_equations(events):
+    """type equations established by the castaway guards a path has passed: (src, dst) pairs"""
+    eqs = []
+    for e in events:
+        if e[0] != "atom":
+            continue
+        c, v = e[1], e[2]
+        inner = None
+        if c[0] == "call" and c[1] == "Result<T, E>::is_ok" and guards.truth(v) is True and c[3]:
+            inner = mir.strip_refs(c[3][0])
+        elif c[0] == "discr":
+            from .. import walk as W
+            if W.atom_variant(("atom", c, v)) == "Ok":
+                inner = mir.strip_refs(c[1])
+        if inner is not None and inner[0] == "call" and "try_cast" in inner[1] and (inner[2] or "").startswith("castaway::"):
+            targs = inner[5]
+            if len(targs) >= 3:
+                eqs.append((targs[-2], targs[-1]))
+    return eqs
+
+
 def transmutes(an, rep, crate=None):
-    R = rep.rule("U2", "every transmute / transmute_copy::<S, D> is dominated by a castaway type-equality guard whose "
-                       "most general unifier theta makes theta(S) == theta(D)")
+    R = rep.rule("U2", "every transmute / transmute_copy::<S, D> is reached only through a castaway type-equality guard whose "
+                       "most general unifier theta makes theta(S) == theta(D) (path-wise from the function that owns the "
+                       "site: a private helper holding the transmute is checked from each function that uses it)")
+    from .. import walk, callgraph
+    from .n_totality import _owner_fn
     core = crate or an.core()
+    owner, users = _owner_fn(core, callgraph.CallGraph(core))
     n = 0
+    entries = {}
     for b in sorted(core.bodies.values(), key=lambda b: b.key):
-        sites = []
+        k = 0
         for o in _unsafe_ops(b):
             if o[0] == "transmute":
                 rv = o[3]
-                sites.append((o[1], o[2], rv["from"], rv["to"]))
-            elif o[0] in ("transmute_copy", "transmute"):
-                info = mir.callee_info(o[3]["callee"])
-                ta = info["targs"]
-                if len(ta) >= 2:
-                    sites.append((o[1], "term", ta[0], ta[1]))
-        if not sites:
+                if not (rv["from"].get("k") == "ptr" and rv["to"].get("k") == "ptr"):
+                    k += 1
+            elif o[0] == "transmute_copy":
+                k += 1
+        if not k:
             continue
-        ex = mir.Expr(b)
-        facts = guards.edge_conditions(b, ex)
-        for bb, si, S, D in sites:
-            if S.get("k") == "ptr" and D.get("k") == "ptr":
-                continue  # pointer-to-pointer casts inserted by the compiler are not value transmutes
-            n += 1
-            eqs = _guard_equations(b, ex, facts, bb)
-            theta = {}
-            okk = True
-            for (x, y) in eqs:
-                th = types.unify(x, y, theta)
-                if th is None:
-                    okk = False
-                    break
-                theta = th
-            if not eqs:
-                R.fail(b.key, "transmute %s -> %s" % (types.show(S), types.show(D)), "transmute is not dominated by a "
-                       "castaway type-equality guard", mir.loc(b, bb, si))
-                continue
-            s2, d2 = types.subst(S, theta), types.subst(D, theta)
-            R.check(okk and types.ty_eq(s2, d2), b.key, "transmute %s -> %s" % (types.show(S), types.show(D)),
-                    "under the guard's unifier %s the source is %s but the destination is %s" %
-                    ({k: types.show(v) for k, v in theta.items()}, types.show(s2), types.show(d2)), mir.loc(b, bb, si),
-                    sample={"fn": b.key, "S": types.show(S), "D": types.show(D),
-                            "theta": {k: types.show(v) for k, v in theta.items()}})
+        n += k
+        root = core.bodies.get(b.raw.get("root")) if b.kind == "Closure" else b
+        root = root or b
+        es = users(root) or {root.key}
+        for e in es:
+            entries.setdefault(e, []).append(b.key)
+    for ekey, site_fns in sorted(entries.items()):
+        eb = core.find(ekey)
+        if eb is None:
+            R.fail(ekey, "entry", "function owning a transmute site not found (fail closed)")
+            continue
+        reached = 0
+        for p in walk.walk(eb, core, max_paths=4000):
+            for i, ev in enumerate(p.events):
+                if ev[0] == "xmute":
+                    S, D = ev[1], ev[2]
+                elif ev[0] == "call" and ev[2] in ("transmute_copy", "transmute") and len(ev[6]) >= 2:
+                    S, D = ev[6][0], ev[6][1]
+                else:
+                    continue
+                reached += 1
+                eqs = _path_equations(p.events[:i])
+                what = "transmute %s -> %s" % (types.show(S), types.show(D))
+                if not eqs:
+                    R.fail(ekey, what, "transmute is not dominated by a castaway type-equality guard", mir.loc(eb, 0))
+                    continue
+                theta = {}
+                okk = True
+                for (x, y) in eqs:
+                    th = types.unify(x, y, theta)
+                    if th is None:
+                        okk = False
+                        break
+                    theta = th
+                s2, d2 = types.subst(S, theta), types.subst(D, theta)
+                R.check(okk and types.ty_eq(s2, d2), ekey, what,
+                        "under the guard's unifier %s the source is %s but the destination is %s" %
+                        ({k_: types.show(v_) for k_, v_ in theta.items()}, types.show(s2), types.show(d2)), mir.loc(eb, 0),
+                        sample={"fn": ekey, "S": types.show(S), "D": types.show(D),
+                                "theta": {k_: types.show(v_) for k_, v_ in theta.items()}})
+        R.check(reached > 0, ekey, "site reached", "no explored path of %s reaches the transmute in %s (fail closed)" %
+                (ekey, site_fns), mir.loc(eb, 0))
     if crate is None:
         R.floor("transmute sites", n, 2)
     return R
